@@ -93,6 +93,12 @@ def run_listby(case, ctx):
         exp = sorted(rows, key=functools.cmp_to_key(lambda a, b: cmp(tuple(a[c] for c in keys), tuple(b[c] for c in keys))))
         ok2 = st2 == 'ok' and type(ul) is dictable and sorted(ul.keys()) == sorted(cols) and len(ul) == n and all(same(dict(a), b) for a, b in zip(ul, exp))
         ctx.check('unlist_sorted_original', ok2, lambda: 'unlist(listby) = %s\nexpected (stable sort by keys) %s' % ([dict(r) for r in ul] if st2 == 'ok' else ul, exp))
+        if ok and ok2:
+            # the listed table is an operand of unlist: its cells still list their key's values, and unlisting it again gives the same rows
+            sizes = [len(r[c]) for r in lb for c in others[:1]]
+            st3, ul2 = ctx.call(lb.unlist)
+            ok3 = (not others or sum(sizes) == n) and st3 == 'ok' and len(ul2) == n and all(same(dict(a), b) for a, b in zip(ul2, exp))
+            ctx.check('unlist_sorted_original', ok3, lambda: 'after one unlist() the listed table changed: cell lengths %s (len(d)=%d); second unlist %s' % (sizes, n, [dict(r) for r in ul2] if st3 == 'ok' else ul2))
     else:
         GRP = case.get('grp', 'grp')
         st, gb = ctx.call(d.groupby, *keys) if GRP == 'grp' else ctx.call(d.groupby, *keys, grp=GRP)
